@@ -1,3 +1,217 @@
-/- C17 — property theorems only (helper lemmas live in `Rooc/Proofs`). -/
+/-
+C17 — LP export denotes the same model.  PROPERTY THEOREMS ONLY (helper lemmas: `Rooc/Proofs/Lp*.lean`).
+
+`Lp.writeLP tok lm` is the port of `LinearModel::to_lp_format` (numbers are opaque tokens `tok v`),
+`Lp.readLP lexN` the independent reader, `Lp.denote lm` the LP problem the model stands for
+(`Satisfy` ↦ `Minimize`, `<`/`>` ↦ `<=`/`>=`: the LP format has neither).  `K` is any linearly ordered
+field; numbers live in `Ext K`.
+-/
+import Rooc.LpFormat
+import Rooc.Proofs.Field
+import Rooc.Proofs.LpBasic
+import Rooc.Proofs.LpParse
+import Rooc.Proofs.LpWitness
+import Mathlib.Data.Rat.Floor
+import Mathlib.Data.List.Nodup
 namespace Rooc.Props.C17
+open Rooc Rooc.Lp Arith
+set_option linter.unusedSectionVars false
+
+variable {K : Type} [Field K] [LinearOrder K] [IsStrictOrderedRing K] [FloorRing K]
+
+/-! ### generated row names -/
+
+/-- no user-given row name is spelled like the name generated for some unnamed row of the model. -/
+def NoLookalike {α : Type} (rows : List (LinRow α)) : Prop :=
+  ∀ (i j : Nat) (ri rj : LinRow α), rows[i]? = some ri → rows[j]? = some rj →
+    ri.name.toList = [] → rj.name.toList ≠ [] → rj.name.toList ≠ 'c' :: natChars (i + 1)
+
+/-- Generated row names are unique: the name given to an unnamed row differs from the name of every
+other row — PROVIDED no user row is literally called `c<i+1>` for an unnamed row `i`
+(`generated_names_unique_counterexample` shows the proviso cannot be dropped: the export does not look
+at the user-given names). -/
+theorem generated_names_unique_partial {α : Type} (rows : List (LinRow α)) (h : NoLookalike rows)
+    (i j : Nat) (ri rj : LinRow α) (hi : rows[i]? = some ri) (hj : rows[j]? = some rj) (hij : i ≠ j)
+    (hgen : ri.name.toList = []) :
+    (rowNames 0 rows)[i]? ≠ (rowNames 0 rows)[j]? := by
+  rw [rowNames_get rows 0 i ri hi, rowNames_get rows 0 j rj hj]
+  intro e
+  have e := Option.some.inj e
+  simp only [rowName, hgen, Nat.zero_add, List.isEmpty_nil, if_true] at e
+  by_cases hj' : rj.name.toList = []
+  · simp only [hj', List.isEmpty_nil, if_true, List.cons.injEq, true_and] at e
+    exact hij (by have := natChars_inj e; omega)
+  · have hne : rj.name.toList.isEmpty = false := by
+      cases hl : rj.name.toList with
+      | nil => exact absurd hl hj'
+      | cons _ _ => rfl
+    simp only [hne, Bool.false_eq_true, if_false] at e
+    exact h i j ri rj hi hj hgen hj' e.symm
+
+/-- hypotheses of `generated_names_unique_partial` are satisfiable (two unnamed rows, one named `a`). -/
+example : NoLookalike ([⟨"", [1], .le, 1⟩, ⟨"a", [1], .le, 1⟩, ⟨"", [1], .le, 1⟩] : List (LinRow Int)) := by
+  intro i j ri rj hi hj hgen hnamed
+  match j, hj with
+  | 0, hj => simp at hj; subst hj; simp at hnamed
+  | 1, hj => simp at hj; subst hj; simp
+  | 2, hj => simp at hj; subst hj; simp at hnamed
+  | (n+3), hj => simp at hj
+
+/-- The export gives two rows the same name: a user row called `c2` followed by an unnamed second
+row are both exported as `c2` (replayed against the real `to_lp_format`: known finding C17-rownames). -/
+theorem generated_names_unique_counterexample :
+    rowNames 0 ([⟨"c2", [1], .ge, 1⟩, ⟨"", [1], .le, 3⟩] : List (LinRow Int)) = ["c2".toList, "c2".toList] := by
+  decide
+
+/-! ### bounds -/
+
+/-- the default range `[0, +inf)` of an LP variable -/
+def IsDefaultRange (r : Ext K × Ext K) : Prop := r = (zero, posInf)
+
+/-- Every declared variable whose range is not the LP default `[0, +inf)` is listed: with its exact
+range in the `Bounds` section, or (Boolean) in the `Binary` section. -/
+theorem nondefault_bounds_listed (lm : LinModel (Ext K)) (d : DomVar (Ext K)) (hd : d ∈ lm.domain)
+    (hnd : ¬ IsDefaultRange (domainRange d.ty)) :
+    (∃ b ∈ (denote lm).bounds, b.var = d.name ∧ b.lo = some (domainRange d.ty).1 ∧ b.hi = some (domainRange d.ty).2)
+      ∨ (d.ty = .bool ∧ d.name ∈ (denote lm).binaries) := by
+  simp only [denote]
+  generalize lm.domain = ds at hd
+  induction ds with
+  | nil => simp at hd
+  | cons x xs ih =>
+    rcases List.mem_cons.mp hd with rfl | hd'
+    · cases hty : d.ty with
+      | bool => right; simp [binaryNames, hty]
+      | int lo hi =>
+        left; exact ⟨⟨d.name, some (ofInt lo), some (ofInt hi)⟩, by simp [denoteBounds, hty], rfl, rfl, rfl⟩
+      | real lo hi =>
+        left; exact ⟨⟨d.name, some lo, some hi⟩, by simp [denoteBounds, hty], rfl, rfl, rfl⟩
+      | nnreal lo hi =>
+        left
+        by_cases hdef : (Arith.eq lo zero && Arith.eq hi posInf) = true
+        · exfalso; apply hnd
+          simp only [Bool.and_eq_true] at hdef
+          simp [IsDefaultRange, hty, domainRange, ext_eq_true hdef.1, ext_eq_true hdef.2]
+        · exact ⟨⟨d.name, some lo, some hi⟩, by simp [denoteBounds, hty, hdef], rfl, rfl, rfl⟩
+    · rcases ih hd' with ⟨b, hb, e⟩ | ⟨e1, e2⟩
+      · left; refine ⟨b, ?_, e⟩
+        unfold denoteBounds; split
+        · exact hb
+        · exact List.mem_cons_of_mem _ hb
+        · split
+          · exact List.mem_cons_of_mem _ hb
+          · exact hb
+        · exact List.mem_cons_of_mem _ hb
+      · right; refine ⟨e1, ?_⟩
+        unfold binaryNames; split
+        · exact List.mem_cons_of_mem _ e2
+        · exact e2
+
+/-- non-vacuity: a model with a tightened variable -/
+example : ¬ IsDefaultRange (domainRange (.real (.fin (-4)) (.fin 4) : VarType (Ext Rat))) := by
+  simp [IsDefaultRange, domainRange]
+
+/-- What the sections say about each declared variable is exactly its domain: the range obtained
+from `Bounds` / `Binary` with the LP default `[0, +inf)` equals the variable's range, and the
+`Binary` / `General` markings are its kind (variable names distinct, as in an `IndexMap`). -/
+theorem denote_ranges (lm : LinModel (Ext K)) (hnames : (lm.domain.map (·.name)).Nodup)
+    (d : DomVar (Ext K)) (hd : d ∈ lm.domain) :
+    rangeOf (denote lm) d.name = domainRange d.ty ∧ kindOf (denote lm) d.name = domainKind d.ty := by
+  have huniq : ∀ d' ∈ lm.domain, d'.name = d.name → d' = d := by
+    intro d' hd' e
+    exact (List.inj_on_of_nodup_map hnames) hd' hd e
+  have hbin : d.name ∈ binaryNames lm.domain ↔ d.ty = .bool := by
+    rw [mem_binaryNames]
+    constructor
+    · rintro ⟨d', hd', e, ht⟩; rw [← huniq d' hd' e]; exact ht
+    · intro ht; exact ⟨d, hd, rfl, ht⟩
+  have hgen : d.name ∈ generalNames lm.domain ↔ ∃ a b, d.ty = .int a b := by
+    rw [mem_generalNames]
+    constructor
+    · rintro ⟨d', hd', e, ht⟩; rw [← huniq d' hd' e]; exact ht
+    · intro ht; exact ⟨d, hd, rfl, ht⟩
+  constructor
+  · simp only [rangeOf, denote, List.contains_iff_mem]
+    by_cases hb : d.ty = .bool
+    · simp [hbin.mpr hb, hb, domainRange]
+    · have : ¬ d.name ∈ binaryNames lm.domain := fun h => hb (hbin.mp h)
+      simp only [this, if_false]
+      exact foldl_denoteBounds lm.domain hnames d hd hb _ rfl
+  · simp only [kindOf, denote, List.contains_iff_mem]
+    cases hty : d.ty with
+    | bool => simp [hbin.mpr hty, domainKind]
+    | int a b =>
+      have h1 : ¬ d.name ∈ binaryNames lm.domain := fun h => by rw [hbin.mp h] at hty; cases hty
+      simp [h1, hgen.mpr ⟨a, b, hty⟩, domainKind]
+    | real a b =>
+      have h1 : ¬ d.name ∈ binaryNames lm.domain := fun h => by rw [hbin.mp h] at hty; cases hty
+      have h2 : ¬ d.name ∈ generalNames lm.domain := fun h => by
+        obtain ⟨_, _, e⟩ := hgen.mp h; rw [e] at hty; cases hty
+      simp [h1, h2, domainKind]
+    | nnreal a b =>
+      have h1 : ¬ d.name ∈ binaryNames lm.domain := fun h => by rw [hbin.mp h] at hty; cases hty
+      have h2 : ¬ d.name ∈ generalNames lm.domain := fun h => by
+        obtain ⟨_, _, e⟩ := hgen.mp h; rw [e] at hty; cases hty
+      simp [h1, h2, domainKind]
+
+/-! ### the round trip -/
+
+/-- **The LP export denotes the same model.**  For every well-formed linear model — names that are
+valid LP names and not words of the format, finite coefficients / right-hand sides / offset, bounds
+that are numbers or infinities — and every printer/lexer pair for the opaque number tokens that
+satisfies `TokOk` on the numbers of the model, the independent LP reader applied to the exported text
+returns exactly the problem the model stands for: sense, objective terms and constant, rows (name,
+terms, relation, right-hand side), `Bounds` entries, `Binary` and `General` markings.
+(`denote_ranges` turns the entries into the per-variable ranges.) -/
+theorem read_write (tok : Ext K → List Char) (lexN : List Char → Option (Ext K)) (lm : LinModel (Ext K))
+    (wf : WellFormed tok lexN lm) : readLP lexN (writeLP tok lm) = some (denote lm) := by
+  unfold readLP
+  rw [lexLP_writeLP tok lexN lm wf]
+  exact parseLP_linesLP tok lexN lm wf
+
+/-- The name hypothesis of `read_write` cannot be dropped: a variable called `free` (a legal rooc
+name) is exported verbatim — `obj: free`, `Bounds`, ` free free` — and the reader, whatever the
+number printer and lexer, cannot read the text back (known finding C17-keyword-names). -/
+theorem read_write_keyword_name_counterexample (tok : Ext Rat → List Char) (lexN : List Char → Option (Ext Rat)) :
+    let lm : LinModel (Ext Rat) :=
+      { optType := .min, objective := [.fin 1], offset := .fin 0, vars := ["free"],
+        domain := [⟨"free", .real .ninf .pinf, 1⟩], rows := [] }
+    nameOk "free" = false ∧ readLP lexN (writeLP tok lm) = none :=
+  ⟨by decide, by rfl⟩
+
+/-! non-vacuity of `read_write`: integer-valued numbers printed in decimal (`Lp.exTok`, `Lp.exLex` in
+`Rooc/Proofs/LpWitness.lean`), over ℚ with the same `ExactField` instance the theorems use -/
+attribute [local instance 10000] fieldExact
+
+/-- a small well-formed model: `max 3x` s.t. `-2x <= 4`, `x` integer in `[-1, 5]`. -/
+example : WellFormed exTok exLex
+    ({ optType := .max, objective := [.fin 3], offset := .fin 0, vars := ["x"],
+       domain := [⟨"x", .int (-1) 5, 1⟩], rows := [⟨"", [.fin (-2)], .le, .fin 4⟩] } : LinModel (Ext ℚ)) := by
+  have key : ∀ z : ℤ, TokOk exTok exLex (.fin (z : ℚ)) ∧ TokOk exTok exLex (Arith.abs (.fin (z : ℚ))) := by
+    intro z
+    refine ⟨exTokOk z, ?_⟩
+    have : Arith.abs (Ext.fin (z : ℚ) : Ext ℚ) = .fin ((|z| : ℤ) : ℚ) := by
+      simp only [Arith.abs, Ext.abs]
+      split <;> rename_i h <;> simp at h
+      · have : z < 0 := by exact_mod_cast h
+        simp [abs_of_neg this]
+      · have : 0 ≤ z := by exact_mod_cast h
+        simp [abs_of_nonneg this]
+    rw [this]; exact exTokOk _
+  refine ⟨by decide, by simp, by decide, ?_, by simp [boundNums], ?_, ?_, ?_⟩
+  · intro v hv
+    simp [coefNums] at hv
+    rcases hv with rfl | rfl | rfl | rfl <;> rfl
+  · intro v hv _
+    simp [coefNums, boundNums] at hv
+    rcases hv with rfl | rfl | rfl | rfl
+    · exact_mod_cast key 3
+    · exact_mod_cast key 0
+    · exact_mod_cast key (-2)
+    · exact_mod_cast key 4
+  · simp [exLex, Nat.ofDigitChars, Arith.zero, Arith.ofInt]
+  · intro i hi
+    simp [intBounds] at hi
+    rcases hi with rfl | rfl <;> simp [exLex, natChars, Nat.ofDigitChars_ten_toDigits, Arith.ofInt]
+
 end Rooc.Props.C17
